@@ -88,7 +88,7 @@ CHECKS = {
     "C04": ("model_checking", E1,
             "explicit-state BFS to closure per foreign-key wiring (7 wirings + self-referential), plain and hostile id strings; reference model comparison of complete image, back-reference reads and error classes",
             "Every reachable state of each wiring is enumerated to closure; restrict/cascade outcome, surviving entities and back-reference buckets are compared with a reference model on every transition, repeated with ids containing quotes, backslashes, keywords and control characters, and with three referrers where the target is deleted in the same transaction as an earlier change of the referencing store.",
-            "2 targets x 2 referrers (3 self-referential entities); cascade over a reference cycle is probed in a child process (known finding) and not executed in-process.",
+            "2 targets x 2 referrers (3 self-referential entities); cascade over a reference cycle is probed in a child process first (a stack overflow would kill the checker); since fix 0176587 the probe survives and the cycle deletes are executed and compared in-process.",
             "DESIGN.md §4 C04"),
     "C05": ("model_checking", E1,
             "explicit-state BFS to closure over link / ref-counted link operations from both sides + exhaustive (current set x requested list) enumeration for SetLinks",
